@@ -3,7 +3,9 @@ package rtgen
 import (
 	"encoding/binary"
 	"fmt"
+	"math/big"
 	"net/netip"
+	"strconv"
 
 	"github.com/gopacket/gopacket"
 
@@ -399,22 +401,34 @@ func Parse(raw []byte) (*Rec, error) {
 	return r, nil
 }
 
+// bytesTerm prints a byte string of at most 16 bytes as `Router.bytesc len value`.
+func bytesTerm(b []byte) string {
+	if len(b) > 16 {
+		return vgen.Bytes(b)
+	}
+	v := new(big.Int).SetBytes(b)
+	return "(Router.bytesc " + strconv.Itoa(len(b)) + " " + v.String() + ")"
+}
+
 func (i Info) Gallina() string {
 	return vgen.App("Router.mkInfo", vgen.B(i.Peer), vgen.B(i.ConsDir), vgen.N(uint64(i.SegID)),
 		vgen.N(uint64(i.Timestamp)), vgen.N(uint64(i.Rsv)))
 }
 
+func mac48(m [6]byte) uint64 {
+	return uint64(m[0])<<40 | uint64(m[1])<<32 | uint64(m[2])<<24 | uint64(m[3])<<16 | uint64(m[4])<<8 | uint64(m[5])
+}
+
 func (h Hop) Gallina() string {
-	return vgen.App("Router.mkHop", vgen.B(h.IngressAlert), vgen.B(h.EgressAlert), vgen.N(uint64(h.ExpTime)),
-		vgen.N(uint64(h.ConsIngress)), vgen.N(uint64(h.ConsEgress)), vgen.Bytes(h.Mac[:]),
-		vgen.N(uint64(h.Rsv)))
+	f := uint64(h.ExpTime)<<40 | uint64(h.ConsIngress)<<24 | uint64(h.ConsEgress)<<8 | uint64(h.Rsv)
+	return vgen.App("Router.hopc", vgen.B(h.IngressAlert), vgen.B(h.EgressAlert), vgen.N(f), vgen.N(mac48(h.Mac)))
 }
 
 // Gallina prints the Router.pkt term; l4 is the expected result of dstScionPort.
 func (r *Rec) Gallina(l4port uint16, l4ok bool) string {
 	return vgen.App("Router.mkPkt",
 		vgen.N(r.DstIA), vgen.N(r.SrcIA), vgen.N(uint64(r.DstType)), vgen.N(uint64(r.SrcType)),
-		vgen.Bytes(r.DstRaw), vgen.Bytes(r.SrcRaw),
+		bytesTerm(r.DstRaw), bytesTerm(r.SrcRaw),
 		vgen.N(uint64(r.PayLen)), vgen.N(uint64(r.PayActual)),
 		vgen.Opt(vgen.N(uint64(l4port)), l4ok),
 		vgen.N(uint64(r.CurrINF)), vgen.N(uint64(r.CurrHF)),
